@@ -101,8 +101,9 @@ def main(argv=None) -> int:
         print(f"VIOLATION property={pid} replay={p} no-failing-input-found")
         rc = 1
 
-    write_evidence(pid, level, ctx, out, lean, len(seen) + (1 if rc and not seen else 0),
-                   [e.get("signature") for e, _ in known_hit])
+    if not a.no_lean:  # development runs without the Lean step never overwrite the evidence
+        write_evidence(pid, level, ctx, out, lean, len(seen) + (1 if rc and not seen else 0),
+                       [e.get("signature") for e, _ in known_hit])
     dt = time.time() - ctx.t0
     print(f"[{pid}] tier={a.tier} seed={seed} evaluations={out.evaluations} nontrivial={len(out.nontrivial)} "
           f"theorems={lean['discharged']}/{lean['obligations']} corr_breaks={len(out.corr_breaks)} "
